@@ -11,6 +11,7 @@ import DoltVerif.Lemmas.TreeWF
 import DoltVerif.Lemmas.BuildWF
 import DoltVerif.Lemmas.Window
 import DoltVerif.Lemmas.MutMapRefine
+import DoltVerif.Lemmas.MutContent
 namespace DoltVerif.C11
 open DoltVerif.Prolly DoltVerif.SortedDict
 
@@ -318,6 +319,20 @@ theorem applyMutations_wf {σ : Type} [Inhabited κ] [BEq κ] [BEq ν] [LawfulBE
   rw [heq]
   exact build_wf C _ t2 (applyEdits_sorted H.cmp_ok es X H.sorted H.edits_sorted) hok' h2
 
+/-- **`applyMutations_wf` without any assumption on how the map was built**: flushing a sorted
+batch into ANY well-formed map (stored keys/counts right, children non-empty, content sorted, no
+empty internal root) gives — when `append` does not panic — a well-formed map that holds exactly
+`applyEdits content batch`.  No canonicity, no NoOverflowBoundary: the content is right even in the
+giant-item shapes where the tree shape is history dependent (C12's known finding). -/
+theorem applyMutations_wf_any {σ : Type} [Inhabited κ] [BEq κ] [BEq ν] [LawfulBEq κ] [LawfulBEq ν]
+    (C : Cfg σ κ ν) {cmp : κ → κ → Ordering} (hc : TotalPreorder cmp) (t : Tree κ ν) (h : WF cmp t)
+    (hne : t.height = 0 ∨ t.root ≠ []) (es : Edits κ ν) (hes : es.Pairwise (fun a b => cmp a.1 b.1 = .lt))
+    (t1 : Tree κ ν) (h1 : applyMutations C cmp t es = .ok t1) :
+    WF cmp t1 ∧ t1.flatten = applyEdits cmp t.flatten es ∧ (t1.height = 0 ∨ t1.root ≠ []) := by
+  obtain ⟨hfl, hwf⟩ := applyMutations_content_wf C hc t h.node hne h.sorted es hes t1 h1
+  exact ⟨⟨hwf, by rw [hfl]; exact applyEdits_sorted hc es _ h.sorted hes⟩, hfl,
+    applyMutations_shape C hc t h.node hne h.sorted es hes t1 h1⟩
+
 /-! ### the pending-edit list (skip.List with its checkpoint) -/
 
 /-- **Revert restores the pending edits of the checkpoint**: whatever is put or deleted after
@@ -393,15 +408,18 @@ puts, deletes, checkpoints and reverts that avoids the two shapes of the known f
 (`SafeRun`: no checkpoint of an empty pending list; no revert before a checkpoint or on a pending
 list shared with the stash), the mutable map presents exactly the sorted dictionary — whatever
 mix of buffered and flushed edits the threshold forces, including flushes between a checkpoint
-and its revert (the stash path).  `FlushRefines`: each flush yields a tree holding the edited
-content (`applyMutations_wf`). -/
+and its revert (the stash path).  `FlushRefines C cmp P`: each flush of a tree satisfying the
+tree invariant `P` yields a tree that holds the edited content and satisfies `P` again
+(`applyMutations_wf` is this statement for `P` = bulk-built + NoOverflowBoundary, per flush). -/
 theorem mutable_refines_partial {σ : Type} [BEq κ] [BEq ν] [Inhabited κ] {C : Cfg σ κ ν} {cmp : κ → κ → Ordering}
-    (hc : TotalPreorder cmp) (hf : FlushRefines C cmp) (base : List (κ × ν)) (hs : Sorted cmp base)
-    (t : Tree κ ν) (ht : t.flatten = base) (maxPending : Nat) (ops : List (MOp κ ν)) (m' : MutMap κ ν)
+    {P : Tree κ ν → Prop} (hc : TotalPreorder cmp) (hf : FlushRefines C cmp P) (base : List (κ × ν))
+    (hs : Sorted cmp base) (t : Tree κ ν) (hP : P t) (ht : t.flatten = base) (maxPending : Nat)
+    (ops : List (MOp κ ν)) (m' : MutMap κ ν)
     (hsafe : SafeRun C cmp { tree := t, maxPending := maxPending } false ops)
     (hrun : MutMap.run C cmp { tree := t, maxPending := maxPending } ops = .ok m') :
     m'.content cmp = SortedDict.run cmp base ops := by
-  have hinit : MInv cmp ({ tree := t, maxPending := maxPending } : MutMap κ ν) ⟨base, base⟩ false := {
+  have hinit : MInv cmp P ({ tree := t, maxPending := maxPending } : MutMap κ ν) ⟨base, base⟩ false := {
+    goodTree := hP
     sortedTree := by rw [ht]; exact hs
     cur := by show applyEdits cmp t.flatten [] = base; exact ht
     cpLe := Nat.le_refl _
@@ -411,16 +429,39 @@ theorem mutable_refines_partial {σ : Type} [BEq κ] [BEq ν] [Inhabited κ] {C 
     liveOk := fun hseen _ => by cases hseen }
   exact mutable_run_refines hc hf ops _ m' _ false hinit hsafe hrun
 
+/-- the tree invariant every flush preserves -/
+def GoodTree [Inhabited κ] (cmp : κ → κ → Ordering) (t : Tree κ ν) : Prop :=
+  WF cmp t ∧ (t.height = 0 ∨ t.root ≠ [])
+
+theorem flushRefines_wf {σ : Type} [Inhabited κ] [BEq κ] [BEq ν] [LawfulBEq κ] [LawfulBEq ν]
+    (C : Cfg σ κ ν) {cmp : κ → κ → Ordering} (hc : TotalPreorder cmp) : FlushRefines C cmp (GoodTree cmp) := by
+  intro tr t' es hP _ hes hap
+  obtain ⟨h1, h2, h3⟩ := applyMutations_wf_any C hc tr hP.1 hP.2 es hes t' hap
+  exact ⟨h2, h1, h3⟩
+
+/-- **`mutable_refines_safe`**: `mutable_refines_partial` with the flush obligation discharged —
+for every well-formed starting map, every flush threshold and every operation sequence that
+avoids the two known checkpoint shapes (`SafeRun`), the mutable map presents exactly the sorted
+dictionary. -/
+theorem mutable_refines_safe {σ : Type} [Inhabited κ] [BEq κ] [BEq ν] [LawfulBEq κ] [LawfulBEq ν]
+    {C : Cfg σ κ ν} {cmp : κ → κ → Ordering} (hc : TotalPreorder cmp) (t : Tree κ ν) (hgood : GoodTree cmp t)
+    (maxPending : Nat) (ops : List (MOp κ ν)) (m' : MutMap κ ν)
+    (hsafe : SafeRun C cmp { tree := t, maxPending := maxPending } false ops)
+    (hrun : MutMap.run C cmp { tree := t, maxPending := maxPending } ops = .ok m') :
+    m'.content cmp = SortedDict.run cmp t.flatten ops :=
+  mutable_refines_partial hc (flushRefines_wf C hc) t.flatten hgood.1.sorted t hgood rfl maxPending ops m' hsafe hrun
+
 /-- **`checkpoint_revert`** (corollary): under the same hypotheses, whatever happens between a
 checkpoint and the revert — including flushes — the map is back at the checkpointed content. -/
 theorem checkpoint_revert_partial {σ : Type} [BEq κ] [BEq ν] [Inhabited κ] {C : Cfg σ κ ν} {cmp : κ → κ → Ordering}
-    (hc : TotalPreorder cmp) (hf : FlushRefines C cmp) (base : List (κ × ν)) (hs : Sorted cmp base)
-    (t : Tree κ ν) (ht : t.flatten = base) (maxPending : Nat) (ops₁ ops₂ : List (MOp κ ν)) (m' : MutMap κ ν)
+    {P : Tree κ ν → Prop} (hc : TotalPreorder cmp) (hf : FlushRefines C cmp P) (base : List (κ × ν))
+    (hs : Sorted cmp base) (t : Tree κ ν) (hP : P t) (ht : t.flatten = base) (maxPending : Nat)
+    (ops₁ ops₂ : List (MOp κ ν)) (m' : MutMap κ ν)
     (hno : ∀ o ∈ ops₂, o matches .put _ _ | .del _)
     (hsafe : SafeRun C cmp { tree := t, maxPending := maxPending } false (ops₁ ++ [.checkpoint] ++ ops₂ ++ [.revert]))
     (hrun : MutMap.run C cmp { tree := t, maxPending := maxPending } (ops₁ ++ [.checkpoint] ++ ops₂ ++ [.revert]) = .ok m') :
     m'.content cmp = SortedDict.run cmp base ops₁ := by
-  rw [mutable_refines_partial hc hf base hs t ht maxPending _ m' hsafe hrun]
+  rw [mutable_refines_partial hc hf base hs t hP ht maxPending _ m' hsafe hrun]
   unfold SortedDict.run
   simp only [List.foldl_append, List.foldl_cons, List.foldl_nil, Dict.step]
   -- puts and deletes do not touch the checkpointed content
